@@ -465,7 +465,7 @@ func FieldOwner(fa *ssa.FieldAddr) (string, string) {
 // graphsync.ResponseStatusCode), or "" when there is none. For types outside
 // the module the name is qualified with the package name.
 func (p *Prog) ConstName(c *ssa.Const) string {
-	if c.Value == nil || c.Value.Kind() != constant.Int {
+	if c.Value == nil || (c.Value.Kind() != constant.Int && c.Value.Kind() != constant.String) {
 		return ""
 	}
 	named, ok := c.Type().(*types.Named)
@@ -487,7 +487,7 @@ func (p *Prog) ConstName(c *ssa.Const) string {
 		best := map[string]ent{}
 		for _, n := range sc.Names() {
 			k, ok := sc.Lookup(n).(*types.Const)
-			if !ok || k.Val().Kind() != constant.Int {
+			if !ok || (k.Val().Kind() != constant.Int && k.Val().Kind() != constant.String) {
 				continue
 			}
 			nt, ok := k.Type().(*types.Named)
